@@ -161,6 +161,8 @@ unit(M("c12_mapping", functions=["multiplicative_hash::{reduce,mix,map}", "shard
        bounds="all u64 hashes, all usize shard counts >= 2, any mixer constants"))
 unit(M("c10_trigger", functions=["trigger::PeriodicTrigger::new", "trigger::observe::{closure#0}", "plain::Cache::new"],
        bounds="all periods / capacities / random draws (integer encoding, no bit-width cut)"))
+unit(M("c08_planner", functions=["second_chance::Update::new", "second_chance::Update::new::{closure#0}"],
+       bounds="n <= 6 entries, every capacity, every flag vector, any sorted rank vector (ties included); Vec operations as finite sequences; std's sort trusted"))
 unit(M("c07_apply_glue", functions=["raw_cache::apply_update"], bounds="plans of up to 2+2 entries (bounded unrolling); callees uninterpreted"))
 unit(M("c07_prune_glue", functions=["raw_cache::prune"], bounds="all capacities; callees uninterpreted under their proven contracts"))
 
@@ -208,7 +210,7 @@ prop("C07", ["c07_prune_glue", "c07_apply_glue", "raw_collect_a_temp", "raw_coll
      outside=["listings of more than 3 entries; plans of more than 2 entries", "the composition prune = apply_update . planner . listing is decided on the MIR of prune "
               "with the three callees uninterpreted (engine M); each callee by its own harnesses; the planner itself is C08"],
      assumptions=COMMON_ASSUME)
-prop("C08", ["c08_n0", "c08_n1", "c08_n2", "c08_n2_fullrank", "c08_sanity_twin"], ["c08_n3_evicted", "c08_spec_planner_n2", "c08_spec_planner_n3", "c08_n4_evicted"],
+prop("C08", ["c08_planner", "c08_n0", "c08_n1", "c08_n2", "c08_n2_fullrank", "c08_sanity_twin"], ["c08_n3_evicted", "c08_spec_planner_n2", "c08_spec_planner_n3", "c08_n4_evicted"],
      outside=["n > 2 for the contents of to_move_back; n > 4 for to_evict (CBMC runs out of memory on Vec::drain's memmove with a symbolic length; measured)",
               "rank domains other than {0..3} / u8; the planner only uses ranks through Ord",
               "tie order is left free by the oracle (the statement says 'under some ordering of equally ranked entries')"],
